@@ -9,7 +9,10 @@
 
 mod fw;
 mod refeval;
+mod c02;
 mod c03;
+mod mipsref;
+mod ppcref;
 mod c04;
 mod a64ref;
 mod liftexec;
@@ -35,6 +38,7 @@ use std::time::{Duration, Instant};
 
 fn make_check(prop: &str, tier: Tier) -> Option<Box<dyn Check>> {
     Some(match prop {
+        "C02" => Box::new(c02::C02::new(tier)),
         "C03" => Box::new(c03::C03::new(tier)),
         "C04" => Box::new(c04::C04::new(tier)),
         "C07" => Box::new(c07::C07::new(tier)),
@@ -66,6 +70,28 @@ fn main() {
         std::process::exit(2);
     }
     let mode = args[1].as_str();
+    if mode == "disasm" {
+        // fvh disasm ppc|mips|mipsel|x86|amd64 <hex bytes>
+        use falcon_capstone::capstone as cs;
+        let bytes: Vec<u8> = (0..args[3].len() / 2).map(|i| u8::from_str_radix(&args[3][2 * i..2 * i + 2], 16).unwrap()).collect();
+        let (arch, md) = match args[2].as_str() {
+            "ppc" => (cs::cs_arch::CS_ARCH_PPC, cs::CS_MODE_32 | cs::CS_MODE_BIG_ENDIAN),
+            "mips" => (cs::cs_arch::CS_ARCH_MIPS, cs::CS_MODE_32 | cs::CS_MODE_BIG_ENDIAN),
+            "mipsel" => (cs::cs_arch::CS_ARCH_MIPS, cs::CS_MODE_32 | cs::CS_MODE_LITTLE_ENDIAN),
+            "x86" => (cs::cs_arch::CS_ARCH_X86, cs::CS_MODE_32),
+            _ => (cs::cs_arch::CS_ARCH_X86, cs::CS_MODE_64),
+        };
+        let c = cs::Capstone::new(arch, md).unwrap();
+        match c.disasm(&bytes, 0x1000, 0) {
+            Ok(insns) => {
+                for i in insns.iter() {
+                    println!("{:x}: {} {}  (id {:?}, {} bytes)", i.address, i.mnemonic, i.op_str, i.id, i.size);
+                }
+            }
+            Err(e) => println!("error {:?}", e),
+        }
+        return;
+    }
     let prop = args[2].clone();
     let tier = match arg_val(&args, "--tier").as_deref() {
         Some("thorough") => Tier::Thorough,
